@@ -375,7 +375,7 @@ Proof.
     + destruct (lookup mid (msgs st0)) as [m|] eqn:Em; [|intro E; apply ROk_inj in E; subst; exact H0].
       destruct (merge_step Hash (cf_limit (cfg st0)) (pm_sm m) slot ty rsp) as [[sm'|]| |]; try discriminate.
       2:{ intro E; apply ROk_inj in E; subst; exact H0. }
-      destruct (is_auth_failure ty); [discriminate|].
+      destruct (is_auth_failure ty && ps_initializing sv)%bool; [discriminate|].
       match goal with |- context [set_msg st0 mid ?x] => set (st1 := set_msg st0 mid x) end.
       assert (H1 : WInv st1) by (eapply WInv_wext; [eapply wext_set_msg_same; [exact Em | reflexivity..] | exact H0]).
       destruct (lookup (pm_client m) (clients st1)) as [cl|]; [|intro E; apply ROk_inj in E; subst; exact H1].
@@ -551,7 +551,7 @@ Proof.
   - rewrite Hm0.
     destruct (merge_step Hash (cf_limit (cfg st0)) (pm_sm m) slot ty rsp) as [[sm'|]| |]; try discriminate.
     2:{ intro E; apply ROk_inj in E; subst; exact F0. }
-    destruct (is_auth_failure ty); [discriminate|].
+    destruct (is_auth_failure ty && ps_initializing sv)%bool; [discriminate|].
     match goal with |- context [set_msg st0 mid ?x] => set (st1 := set_msg st0 mid x) end.
     assert (F1 : frame st st1 mid (pm_client m)) by (eapply frame_trans; [exact F0 | apply frame_set_msg]).
     destruct (lookup (pm_client m) (clients st1)) as [cl|]; [|intro E; apply ROk_inj in E; subst; exact F1].
